@@ -429,4 +429,116 @@ def ranksumValueSR {β : Type} (g : α → α → List α → β) (nB n : Nat) (
 
 end ranksum
 
+/-! ## Round 4 — sessions: one `Result` queried repeatedly through every public route
+
+The statistics above are functions of the *content* of a `Result` (evaluations, stored covariance with the
+variances derived from it, noise ceiling).  A session executes a list of calls one after the other on one
+object; call `k` sees whatever the calls before it left behind — in the object (`content`) and outside it
+(`memo`: a module-level or per-object cache).  Two generated counts decide what a call leaves behind:
+the number of in-place statements on its path (`writesOf`, leaves `*InputWrites`) and the number of places
+where a value can survive a call (`stateCells`, leaves `moduleStateCells`, `resultExtraAttrs`). -/
+section sessions
+
+/-- the public routes of a session -/
+inductive Route where
+  | testAll | testPairwise | testZero | testNoise
+  | getMeans | getSem | getCi | getErrorbars | getModelVar | getNoiseCeil
+  | utilAll | utilPair | utilZero | utilNc | utilErrorbars
+  | extract
+  | reload
+  | rebuild
+deriving Repr, DecidableEq, Inhabited
+
+def Route.ofString? : String → Option Route
+  | "test_all" => some .testAll
+  | "test_pairwise" => some .testPairwise
+  | "test_zero" => some .testZero
+  | "test_noise" => some .testNoise
+  | "get_means" => some .getMeans
+  | "get_sem" => some .getSem
+  | "get_ci" => some .getCi
+  | "get_errorbars" => some .getErrorbars
+  | "get_model_var" => some .getModelVar
+  | "get_noise_ceil" => some .getNoiseCeil
+  | "util.all_tests" => some .utilAll
+  | "util.pair_tests" => some .utilPair
+  | "util.zero_tests" => some .utilZero
+  | "util.nc_tests" => some .utilNc
+  | "util.get_errorbars" => some .utilErrorbars
+  | "extract" => some .extract
+  | "reload" => some .reload
+  | "rebuild" => some .rebuild
+  | _ => none
+
+/-- number of statements on the path of a route that write *in place* into an array aliasing the caller's
+    data (generated leaves: a syntactic may-alias analysis of the current source).  The `Result` methods
+    run the wrappers of `inference_util`; `reload` runs `to_dict`, `result_from_dict`, `Result.__init__`
+    and `extract_variances`; `rebuild` constructs a second `Result` from the arrays the first was built from. -/
+def writesOf : Route → Nat
+  | .extract => extractInputWrites
+  | .utilAll | .utilPair | .utilZero | .utilNc => testInputWrites
+  | .utilErrorbars => errorbarInputWrites
+  | .reload | .rebuild => resultInputWrites + extractInputWrites
+  | _ => resultInputWrites + testInputWrites
+
+/-- places where a value could survive a call outside the arguments (generated leaves) -/
+def stateCells : Nat := moduleStateCells + resultExtraAttrs
+
+/-- the content of a `Result` (flattened): what the routes read -/
+structure Content (α : Type) where
+  evals : List (Option α)
+  vars : List α
+  ceil : List (Option α)
+deriving Repr, DecidableEq
+
+/-- one call of a session: the route, its full argument (test type, confidence level, kind of covariance
+    input …) and what a memo with a *coarse* key would look at (model count, dof, …) -/
+structure Call where
+  route : Route
+  arg : Nat
+  key : Nat
+deriving Repr, DecidableEq, Inhabited
+
+/-- state of a session: the object's content and the cache(s) outside the arguments -/
+structure SState (α ρ : Type) where
+  content : Content α
+  memo : List (Nat × ρ)
+
+def memoLookup {ρ : Type} (k : Nat) : List (Nat × ρ) → Option ρ
+  | [] => none
+  | (k', v) :: rest => if k' = k then some v else memoLookup k rest
+
+/-- what a single in-place statement does to the content (the shape of an in-place centring of
+    `result.evaluations`); any change would serve -/
+def corrupt {α : Type} [Add α] [One α] (c : Content α) : Content α :=
+  { c with evals := c.evals.map (Option.map (· + 1)) }
+
+/-- value a call returns when there are `cells` hidden state cells: with none it is the stand-alone value
+    on the content it finds; otherwise a value cached under the call's coarse key is handed out -/
+def resultW {α ρ : Type} (cells : Nat) (pure : Call → Content α → ρ) (c : Call) (s : SState α ρ) : ρ :=
+  if cells = 0 then pure c s.content else (memoLookup c.key s.memo).getD (pure c s.content)
+
+/-- state a call leaves behind with `w` in-place statements and `cells` hidden state cells -/
+def effW {α ρ : Type} [Add α] [One α] (w cells : Nat) (pure : Call → Content α → ρ) (c : Call)
+    (s : SState α ρ) : SState α ρ :=
+  { content := if w = 0 then s.content else corrupt s.content,
+    memo := if cells = 0 then s.memo
+            else if (memoLookup c.key s.memo).isSome then s.memo else (c.key, pure c s.content) :: s.memo }
+
+/-- as coded: the counts are read off the source -/
+def callResult {α ρ : Type} (pure : Call → Content α → ρ) (c : Call) (s : SState α ρ) : ρ :=
+  resultW stateCells pure c s
+
+def callEffect {α ρ : Type} [Add α] [One α] (pure : Call → Content α → ρ) (c : Call) (s : SState α ρ) :
+    SState α ρ :=
+  effW (writesOf c.route) stateCells pure c s
+
+/-- a session: the calls are executed one after the other; call `k` sees the state the calls before it
+    left behind.  Returns per call its result and the state after it. -/
+def runSession {κ σ ρ : Type} (eff : κ → σ → σ) (result : κ → σ → ρ) : List κ → σ → List (ρ × σ)
+  | [], _ => []
+  | c :: cs, s => (result c s, eff c s) :: runSession eff result cs (eff c s)
+
+end sessions
+
 end Rsa.Stats
